@@ -352,6 +352,8 @@ fn parse(case: &str) -> Option<Script> {
 struct ConnRec {
     accepted: bool,
     closed_at: Option<usize>,
+    /// (duplex variants) a server-side IO for this connection was put into the `incoming` stream
+    offered: bool,
     /// TCP variant, seen by the client end: the server acknowledged the client's SETTINGS (its
     /// HTTP/2 handshake is complete); the server's final GOAWAY (last-stream-id < 2^31-1) arrived
     hs_ack: bool,
@@ -1476,6 +1478,7 @@ async fn run(sc: Script) -> String {
                 } else {
                     let (cli, srv) = tokio::io::duplex(sc.buf);
                     if let Some(tx) = &inc_tx {
+                        sh.lock().unwrap().conns[id].offered = true;
                         let _ = tx.send(Ok(SrvIo { inner: srv, id, sh: sh.clone() }));
                     } else {
                         drop(srv);
@@ -1517,6 +1520,7 @@ async fn run(sc: Script) -> String {
                         if i + 1 == j {
                             triggers.lock().unwrap().push(id);
                         }
+                        sh.lock().unwrap().conns[id].offered = true;
                         let _ = tx.send(Ok(SrvIo { inner: srv, id, sh: sh.clone() }));
                     } else {
                         drop(srv);
@@ -1541,7 +1545,8 @@ async fn run(sc: Script) -> String {
                 };
                 let (mut cli, srv) = tokio::io::duplex(sc.buf);
                 if let Some(tx) = &inc_tx {
-                    let _ = tx.send(Ok(SrvIo { inner: srv, id, sh: sh.clone() }));
+                    sh.lock().unwrap().conns[id].offered = true;
+                        let _ = tx.send(Ok(SrvIo { inner: srv, id, sh: sh.clone() }));
                 } else {
                     drop(srv);
                 }
@@ -1732,6 +1737,13 @@ async fn run(sc: Script) -> String {
         Some(s) => Some(s.finish().await),
         None => None,
     };
+    // a serve future that has resolved holds no connection any more - not even one it had taken from `incoming`
+    // and was still doing the TLS handshake on (the clients are all still there at this point: a connection that is
+    // gone now was closed by the server).  Seed C13g: handshake tasks that outlive the serve future.
+    let held_after_resolve = {
+        let g = sh.lock().unwrap();
+        g.resolved.is_some() && g.conns.iter().any(|c| c.offered && !c.accepted && c.closed_at.is_none())
+    };
     // every client goes away
     sh.lock().unwrap().step = nsteps + 1;
     for (_, h) in call_tasks.iter() {
@@ -1797,6 +1809,9 @@ async fn run(sc: Script) -> String {
     }
     if repolled.load(std::sync::atomic::Ordering::SeqCst) {
         out.push("repoll".into());
+    }
+    if held_after_resolve {
+        out.push("held".into());
     }
     out.join(" ")
 }
